@@ -343,12 +343,20 @@ Definition add_value (src : bytes) (r : repl) (cs : caps) (s e : Z) (ncall : nat
       end
   | RTab t =>
       match onecapture src cs 0 s e with
-      | Ok k => Ok (match tab_get t k with Some v => v | None => slice src s e end, [])
+      | Ok k => match tab_get t k with
+                | RSome v => Ok (v, [])
+                | RNone => Ok (slice src s e, [])
+                | RBad => Err                                   (* invalid replacement value *)
+                end
       | Err => Err | Panic => Panic | Fuel => Fuel | Unsup => Unsup
       end
   | RFn rets =>
       match push_captures src cs true s e with
-      | Ok args => Ok (match nth ncall rets None with Some v => v | None => slice src s e end, [args])
+      | Ok args => match nth ncall rets RNone with
+                   | RSome v => Ok (v, [args])
+                   | RNone => Ok (slice src s e, [args])
+                   | RBad => Err
+                   end
       | Err => Err | Panic => Panic | Fuel => Fuel | Unsup => Unsup
       end
   end.
